@@ -386,8 +386,25 @@ func runC08(c *Ctx) {
 		c.Analysed(funcKey(h))
 		// the ancestor walk: a loop in the handler, or a walking helper that calls back into the handler's closure
 		bodies := p.walkBodies(h, queueLinkFields)
-		c.Check(len(bodies) == 1, "O5", "WALK", funcKey(h)+": updates every ancestor", h.Pos(), "walks queues[q.ParentQueue]", "the handler updates the leaf queue only: ancestors' allocations drift, their limits are not enforced")
 		body, lab := h, armLabeler(preemptArm)
+		if len(bodies) == 0 {
+			// the whole walk was moved into a function the handler calls: it is analysed there, with its parameters
+			// read as the handler's actual arguments (the preemptibility flag in particular)
+			for _, in := range instrsIn(h, func(in ssa.Instruction) bool { _, ok := in.(ssa.CallInstruction); return ok }) {
+				cs := in.(ssa.CallInstruction)
+				g := cs.Common().StaticCallee()
+				if g == nil || len(g.Blocks) == 0 || !strings.HasSuffix(funcPkgPath(g), pkgProportion) {
+					continue
+				}
+				if wb := p.walkBodies(g, queueLinkFields); len(wb) == 1 && wb[0].MC == nil {
+					bodies, body = wb, g
+					actuals := callActuals(cs)
+					lab = func(f Fact) string { return preemptArm(Fact{f.T.subst(actuals), f.Pol}) }
+					break
+				}
+			}
+		}
+		c.Check(len(bodies) == 1, "O5", "WALK", funcKey(h)+": updates every ancestor", h.Pos(), "walks queues[q.ParentQueue]", "the handler updates the leaf queue only: ancestors' allocations drift, their limits are not enforced")
 		if len(bodies) == 1 && bodies[0].MC != nil {
 			wb := bodies[0]
 			body = wb.Fn
